@@ -99,6 +99,7 @@ End Never.
 Arguments ne {St Res}.
 
 (* exact rational instances *)
+Local Open Scope Q_scope.
 Definition eps18 : Q := 1 # 1000000000000000000.
 Definition tol8 : Q := 1 # 100000000.
 Definition Qblk (a b c d : Q) : blk := mkblk a b c d.
@@ -119,12 +120,13 @@ Proof. split; vm_compute; reflexivity. Qed.
 Lemma qr_block_loop_spd_nonterminating : never_exits (qr_block_step NumQ eps18) (Qblk 2 1 1 2).
 Proof. apply ne_never_exits. destruct qr_block_spd_period as [A B]. eapply ne_period2; eassumption. Qed.
 (* and the whole 2x2 run reaches that loop: neither the deflation test nor the complex-eigenvalue test fires *)
+Lemma qr_spd_reaches_loop :
+  qr_deflate NumQ eps18 (Qblk 2 1 1 2) = Qblk 2 1 1 2 /\ qr_skip NumQ (Qblk 2 1 1 2) = false.
+Proof. split; vm_compute; reflexivity. Qed.
 Lemma qr_run2_spd_out_of_fuel fuel : exists s, qr_run2 NumQ eps18 fuel (Qblk 2 1 1 2) = OutOfFuel s.
 Proof.
-  assert (E : qr_run2 NumQ eps18 fuel (Qblk 2 1 1 2) = uncapped (qr_block_step NumQ eps18) fuel 0 (Qblk 2 1 1 2)).
-  { unfold qr_run2. vm_compute (leb NumQ _ _). cbv iota. vm_compute (eqb NumQ _ _). cbv iota.
-    vm_compute (ltb NumQ _ _). cbv iota. reflexivity. }
-  rewrite E. apply qr_block_loop_spd_nonterminating.
+  destruct qr_spd_reaches_loop as [A B]. unfold qr_run2. rewrite A, B.
+  apply qr_block_loop_spd_nonterminating.
 Qed.
 
 (* Denman–Beavers msqrt on [[-3]]: after the first step the state has period 2 *)
@@ -159,7 +161,7 @@ Lemma gd_nonterminating : never_exits (gd_step NumQ 1 tol8) 1%Q.
 Proof. apply ne_never_exits. destruct gd_orbit. eapply ne_period2; eassumption. Qed.
 
 (* Tip() on the 2x2 view of a 3x3 matrix: mn = 9, rows = 2, cycle = 1: k = 1, 2, 4, 0, 0, 0, ... *)
-Lemma tip_view_nonterminating : never_exits (tip_step 2 9 1) 1%Z.
+Lemma tip_view_nonterminating : never_exits (tip_step 2%Z 9%Z 1%Z) 1%Z.
 Proof.
   apply ne_never_exits.
   eapply ne_step; [vm_compute; reflexivity|]. eapply ne_step; [vm_compute; reflexivity|].
@@ -174,5 +176,5 @@ Lemma ls_constraints_nonterminating (alpha : Q) : never_exits (lsc_step NumQ (fu
 Proof. apply ne_never_exits, ne_no_exit. intro s0. eexists. reflexivity. Qed.
 (* ... and it does exit as soon as some iterate is accepted: the loop is exactly as strong as its oracle *)
 Lemma retry_exits_when_accepted St (accept : St -> bool) (shrink : St -> St) s :
-  accept s = true -> uncapped (retry_step accept shrink) 1 0 s = Done s 1.
+  accept s = true -> uncapped (retry_step accept shrink) 1%nat 0%nat s = Done s 1%nat.
 Proof. intro H. simpl. unfold retry_step. rewrite H. reflexivity. Qed.
